@@ -369,6 +369,26 @@ def mkTable (a : CtorArgs) : Except Err Tbl := do
     | Option.none => Gen.C12.footerPrefix ++ natToDec a.records.length ++ Gen.C12.footerSuffix
   .ok ⟨a.records, a.header, footer, ⟨fields, cols, limF, limL, Option.none⟩⟩
 
+/-- `PPTableFormat.clone()`: same fields, columns without their widths, both limits; the
+skipped-lines flag starts anew -/
+def cloneFmt (f : Fmt) : Fmt :=
+  ⟨f.fields, f.cols.map fun c => { c with width := Option.none }, f.limF, f.limL, Option.none⟩
+
+/-- `PPTable(records, fmt_obj=f, limits=…, skip_columns=…, header=…, footer=…)` -/
+def mkTableFromFmt (f : Fmt) (records : List Record) (limits : Option (Option Int × Option Int))
+    (skip : Option (List (List Char))) (header footer : Option (List Char)) : Tbl :=
+  let g := cloneFmt f
+  let (limF, limL) := match limits with
+    | some l => l
+    | Option.none => (g.limF, g.limL)
+  let cols := match skip with
+    | some names => g.cols.filter fun c => !names.contains c.field.name
+    | Option.none => g.cols
+  let footer := match footer with
+    | some x => x
+    | Option.none => Gen.C12.footerPrefix ++ natToDec records.length ++ Gen.C12.footerSuffix
+  ⟨records, header, footer, ⟨g.fields, cols, limF, limL, Option.none⟩⟩
+
 /-! ## wire format of the drivers (not part of the model proper)
 
 `F- | F n (name D|E… title)*`, `R n (m val*)*`, fmt `none|cps`, `L- | L lim lim`, header, footer
@@ -448,27 +468,64 @@ def limP : P (Option Int) := do
   let t ← tok
   if t = "n" then pure Option.none else do let i ← lift (parseInt t); pure (some i)
 
+/-- records, limits, header, footer, skip_columns -/
+structure Rest where
+  records : List Record
+  limits : Option (Option Int × Option Int)
+  header : Option (List Char)
+  footer : Option (List Char)
+  skip : Option (List (List Char))
+
+def recordsP : P (List Record) := do
+  let r ← tok
+  if r ≠ "R" then fail else
+  let nr ← natTok
+  many (do let m ← natTok; many valTok m) nr
+
+def limitsP : P (Option (Option Int × Option Int)) := do
+  let l ← tok
+  if l = "L-" then pure Option.none
+  else if l = "L" then do let a ← limP; let b ← limP; pure (some (a, b))
+  else fail
+
+def skipP : P (Option (List (List Char))) := do
+  let k ← tok
+  if k = "K-" then pure Option.none
+  else if k = "K" then do let n ← natTok; let ns ← many cpsTok n; pure (some ns)
+  else fail
+
 def specP : P CtorArgs := do
   let f ← tok
   let fields ← (if f = "F-" then pure Option.none
     else if f = "F" then do let n ← natTok; let fs ← many fieldP n; pure (some fs)
     else fail : P (Option (List FieldSpec)))
-  let r ← tok
-  if r ≠ "R" then fail else
-  let nr ← natTok
-  let records ← many (do let m ← natTok; many valTok m) nr
+  let records ← recordsP
   let fmt ← optCps
-  let l ← tok
-  let limits ← (if l = "L-" then pure Option.none
-    else if l = "L" then do let a ← limP; let b ← limP; pure (some (a, b))
-    else fail : P (Option (Option Int × Option Int)))
+  let limits ← limitsP
   let header ← optCps
   let footer ← optCps
-  let k ← tok
-  let skip ← (if k = "K-" then pure Option.none
-    else if k = "K" then do let n ← natTok; let ns ← many cpsTok n; pure (some ns)
-    else fail : P (Option (List (List Char))))
+  let skip ← skipP
   pure ⟨records, fields, fmt, limits, header, footer, skip⟩
+
+def restP : P Rest := do
+  let records ← recordsP
+  let limits ← limitsP
+  let header ← optCps
+  let footer ← optCps
+  let skip ← skipP
+  pure ⟨records, limits, header, footer, skip⟩
+
+def parseRest (toks : List String) : Option Rest :=
+  match restP toks with
+  | some (a, []) => some a
+  | _ => Option.none
+
+/-- token groups separated by `@` -/
+def splitAt (toks : List String) : List (List String) :=
+  toks.foldr (fun t acc => if t = "@" then [] :: acc else
+    match acc with
+    | g :: gs => (t :: g) :: gs
+    | [] => [[t]]) [[]]
 
 def parseSpec (toks : List String) : Option CtorArgs :=
   match specP toks with
